@@ -1635,15 +1635,24 @@ class VM:
         """Create a method for Python callables (including JSBoundMethod)."""
         from .values import JSBoundMethod
 
+        def invoke(this_val, call_args):
+            # The script can stack these wrappers (f.call.call.call...); every
+            # level is a frame on the host stack and counts against its budget
+            self._enter_host_level()
+            try:
+                # JSBoundMethod expects this as first arg
+                if isinstance(fn, JSBoundMethod):
+                    return fn(this_val, *call_args)
+                # Regular Python callable doesn't use this
+                return fn(*call_args)
+            finally:
+                self.host_depth[0] -= 1
+
         def call_fn(*args):
             """Call with explicit this and individual arguments."""
             this_val = args[0] if args else UNDEFINED
             call_args = list(args[1:]) if len(args) > 1 else []
-            # JSBoundMethod expects this as first arg
-            if isinstance(fn, JSBoundMethod):
-                return fn(this_val, *call_args)
-            # Regular Python callable doesn't use this
-            return fn(*call_args)
+            return invoke(this_val, call_args)
 
         def apply_fn(*args):
             """Call with explicit this and array of arguments."""
@@ -1659,9 +1668,7 @@ class VM:
             else:
                 apply_args = []
 
-            if isinstance(fn, JSBoundMethod):
-                return fn(this_val, *apply_args)
-            return fn(*apply_args)
+            return invoke(this_val, apply_args)
 
         def bind_fn(*args):
             """Create a bound function with fixed this."""
